@@ -188,7 +188,7 @@ int main(int argc, char **argv) {
             memcpy(kb, kb0, kn); memcpy(vb, vb0, vn);
             int ok = 1, rk = 0, rv = 0; long n = 0; size_t sz = 0; void *p = NULL;
             static int outk[70000], outv[70000]; int nout = -1;
-            long lkb = vh_locks - vh_unlocks, ovb = vh_overlap_copies, bfb = vh_badfree;
+            long lkb = VH_LOCK_BALANCE(), ovb = vh_overlap_copies, bfb = vh_badfree;
             int newmem = (int) (vh_step & 1);
             cmps = 0;
             vh_watchdog(6);
@@ -297,7 +297,7 @@ int main(int argc, char **argv) {
             if (full) { int first = 1; inorder(&b, T->root, &first); }
             vh_bprintf(&b, "],\"out\":[");
             for (int j = 0; j < nout && j < 70000; j++) vh_bprintf(&b, "%s[%d,%d]", j ? "," : "", outk[j], outv[j]);
-            vh_bprintf(&b, "],\"lkd\":%ld,\"ovl\":%ld,\"bf\":%ld}", (vh_locks - vh_unlocks) - lkb, vh_overlap_copies - ovb, vh_badfree - bfb);
+            vh_bprintf(&b, "],\"lkd\":%ld,\"ovl\":%ld,\"bf\":%ld}", VH_LOCK_BALANCE() - lkb, vh_overlap_copies - ovb, vh_badfree - bfb);
             vh_bflush(&b);
             if (!inject || nfail == 0 || ok ) break;
         }
